@@ -382,3 +382,744 @@ Proof.
   destruct (N.leb_spec M64 (2 ^ lgm * 3)); [lia|].
   destruct (N.eqb_spec (N.land fl 5) 0); [contradiction|]. reflexivity.
 Qed.
+
+(* the layout specification's decoder on the same two forms *)
+Lemma flag_clear fl : fl < 256 -> N.land fl 5 = 0 -> N.testbit fl 0 || N.testbit fl 2 = false.
+Proof. intros H E. pose proof (flag_bits fl H) as B. rewrite E in B. change (0 =? 0) with true in B. destruct (_ || _); [discriminate|reflexivity]. Qed.
+
+Lemma flag_set fl : fl < 256 -> N.land fl 5 <> 0 -> N.testbit fl 0 || N.testbit fl 2 = true.
+Proof. intros H E. pose proof (flag_bits fl H) as B. destruct (N.eqb_spec (N.land fl 5) 0); [contradiction|]. destruct (_ || _); [reflexivity|discriminate]. Qed.
+
+Lemma spec_full b0 lgm lgc fl u16 n u32 w off vals items trail :
+  b0 mod 64 = 4 -> fl < 256 -> N.land fl 5 = 0 ->
+  n = N.of_nat (length vals) -> length items = length vals -> n < 2 ^ 32 -> w < M64 -> off < M64 ->
+  Forall (fun v => v < M64) vals -> Forall (fun v => v < M64) items ->
+  spec_decode (img_full b0 lgm lgc fl u16 n u32 w off vals items trail) =
+  Some (mkFA lgm lgc w off (combine (map spec_i64 items) vals)).
+Proof.
+  intros Hb0 Hfl256 Hfl Hn Hli Hn32 Hw Hoff Hvals Hitems.
+  unfold spec_decode, img_full.
+  set (payload := flat_map (le_bytes 8) vals ++ flat_map (le_bytes 8) items ++ trail).
+  cbn [le_bytes app length nth firstn skipn Nat.ltb Nat.leb].
+  rewrite Hb0, (flag_clear fl Hfl256 Hfl). rewrite !N.eqb_refl. cbn [negb andb].
+  rewrite !le4_fold, !le8_fold.
+  rewrite (le_val_le_bytes_small 4) by (change (256 ^ N.of_nat 4) with (2 ^ 32); exact Hn32).
+  rewrite !(le_val_le_bytes_small 8) by (change (256 ^ N.of_nat 8) with 18446744073709551616; unfold M64 in *; assumption).
+  replace (N.to_nat n) with (length vals) by lia.
+  unfold payload. rewrite (spec_longs_flat vals _ Hvals).
+  rewrite <- Hli. rewrite (spec_longs_flat items _ Hitems). reflexivity.
+Qed.
+
+Lemma spec_empty b0 lgm lgc fl u16 trail :
+  b0 mod 64 = 1 -> fl < 256 -> N.land fl 5 <> 0 ->
+  spec_decode (img_empty b0 lgm lgc fl u16 trail) = Some (mkFA lgm lgc 0 0 []).
+Proof.
+  intros Hb0 Hfl256 Hfl. unfold spec_decode, img_empty.
+  cbn [le_bytes app length nth firstn skipn Nat.ltb Nat.leb].
+  rewrite Hb0, (flag_set fl Hfl256 Hfl). rewrite !N.eqb_refl. reflexivity.
+Qed.
+
+(* the writer emits exactly these forms *)
+Lemma serialize_full c : fc_weight c <> 0 ->
+  fc_serialize c = img_full 4 (fc_lg_max c) (rp_lg (fc_map c)) 0 0 (fc_num_active c) 0 (fc_weight c) (fc_offset c)
+                     (rp_active_values (fc_map c)) (map u64_of_i64 (rp_active_keys (fc_map c))) [].
+Proof.
+  intros Hw. unfold fc_serialize, img_full. destruct (N.eqb_spec (fc_weight c) 0); [contradiction|].
+  rewrite flat_map_map, app_nil_r. reflexivity.
+Qed.
+
+Lemma serialize_empty c : fc_weight c = 0 ->
+  fc_serialize c = img_empty 1 (fc_lg_max c) (rp_lg (fc_map c)) 5 0 [].
+Proof. intros Hw. unfold fc_serialize, img_empty. rewrite Hw. change (0 =? 0) with true. cbn iota. rewrite app_nil_r. reflexivity. Qed.
+
+(* ---------- counter-list facts used for the loaded table ---------- *)
+Lemma cs_add0_props l k v : allpos l -> allpos (cs_add0 l k v) /\ cs_sum (cs_add0 l k v) = cs_sum l + v /\
+  (forall x, In x (keys (cs_add0 l k v)) -> x = k \/ In x (keys l)).
+Proof.
+  intros Hp. unfold cs_add0. destruct (N.eqb_spec v 0) as [->|Hv].
+  - repeat split; [exact Hp|lia|]. intros x Hx. right. exact Hx.
+  - repeat split; [apply allpos_add; [lia|exact Hp]|apply sum_add|]. intros x Hx. apply keys_add in Hx. exact Hx.
+Qed.
+
+Lemma cs_load_props : forall items values l, length items = length values -> allpos l ->
+  allpos (cs_load l items values) /\ cs_sum (cs_load l items values) = cs_sum l + sumN values /\
+  (forall x, In x (keys (cs_load l items values)) -> In x items \/ In x (keys l)).
+Proof.
+  induction items as [|k items IH]; intros values l Hlen Hp; destruct values as [|v values]; cbn [length] in Hlen; try lia.
+  - cbn [cs_load sumN]. repeat split; [exact Hp|lia|]. intros x Hx. right. exact Hx.
+  - cbn [cs_load sumN]. destruct (cs_add0_props l k v Hp) as (Hp1 & Hs1 & Hk1).
+    destruct (IH values (cs_add0 l k v) ltac:(lia) Hp1) as (Hp2 & Hs2 & Hk2).
+    repeat split; [exact Hp2|rewrite Hs2, Hs1; lia|].
+    intros x Hx. destruct (Hk2 x Hx) as [Hi|Hi]; [left; right; exact Hi|].
+    destruct (Hk1 x Hi) as [->|Hi']; [left; left; reflexivity|right; exact Hi'].
+Qed.
+
+Lemma cs_get_le_sum l x : cs_get l x <= cs_sum l.
+Proof.
+  unfold cs_sum. induction l as [|[k v] r IH]; cbn [cs_get map snd sumN]; [lia|]. destruct (Z.eqb x k); lia.
+Qed.
+
+Lemma in_le_sum l k v : In (k, v) l -> v <= cs_sum l.
+Proof.
+  unfold cs_sum. induction l as [|[k0 v0] r IH]; intros Hin; [destruct Hin|]. cbn [map snd sumN].
+  destruct Hin as [E|Hin]; [inversion E; subst; lia|specialize (IH Hin); lia].
+Qed.
+
+Lemma allpos_perm l l' : Permutation l l' -> allpos l -> allpos l'.
+Proof. intros P Hp. unfold allpos in *. eapply Permutation_Forall; eassumption. Qed.
+
+Lemma kv_length t : length (kv t) = length (active_entries t).
+Proof. unfold kv. apply map_length. Qed.
+
+Lemma combine_map_entries (es : list entry) : combine (map e_key es) (map e_val es) = map (fun e => (e_key e, e_val e)) es.
+Proof. induction es as [|e es IH]; cbn [map combine]; [reflexivity|]. rewrite IH. reflexivity. Qed.
+
+(* ---------- well-formed concrete sketches ---------- *)
+Definition abs_fc (c : fc) : fi_abs :=
+  mkFA (fc_lg_max c) (rp_lg (fc_map c)) (fc_weight c) (fc_offset c) (kv (fc_map c)).
+
+Record fc_wf (H : Z -> N) (c : fc) : Prop := {
+  w_lgc : LG_MIN <= rp_lg (fc_map c);
+  w_lgm : rp_lg (fc_map c) <= fc_lg_max c /\ fc_lg_max c <= 62;
+  w_cap : fc_cur_cap c = rp_thr (fc_map c) /\ rp_thr (fc_map c) = load_threshold (2 ^ rp_lg (fc_map c));
+  w_ss : fc_sample_size c = N.min SAMPLE_SIZE (cap_of_lg (fc_lg_max c));
+  w_len : rp_len (fc_map c) = 2 ^ rp_lg (fc_map c);
+  w_active : rp_active (fc_map c) = N.of_nat (length (active_entries (fc_map c)));
+  w_fit : rp_active (fc_map c) <= fc_cur_cap c;
+  w_u32 : rp_active (fc_map c) < 2 ^ 32;      (* active_items is written as a u32 *)
+  w_nodup : NoDup (keys (kv (fc_map c)));
+  w_pos : allpos (kv (fc_map c));
+  w_keys : Forall i64_ok (keys (kv (fc_map c)));
+  w_hash : Forall (fun e => e_hash e = H (e_key e)) (active_entries (fc_map c));
+  w_weight : fc_offset c + cs_sum (kv (fc_map c)) <= fc_weight c /\ fc_weight c < M64
+}.
+
+Lemma wf_cur_cap H c : fc_wf H c -> fc_cur_cap c = cap_of_lg (rp_lg (fc_map c)).
+Proof.
+  intros W. destruct W. destruct w_cap0 as [-> ->]. apply load_threshold_cap. rewrite LG_MIN_val in *. lia.
+Qed.
+
+Lemma wf_room H c : fc_wf H c -> room (fc_map c).
+Proof.
+  intros W. pose proof (wf_cur_cap H c W) as Hc. destruct W. unfold room. rewrite <- w_active0, w_len0.
+  rewrite LG_MIN_val in *. pose proof (cap_lt_len (rp_lg (fc_map c)) w_lgc0). lia.
+Qed.
+
+Lemma tinv_hash H t : tinv H t -> Forall (fun e => e_hash e = H (e_key e)) (active_entries t).
+Proof.
+  intros [_ Hslot _]. apply Forall_forall. intros e Hin. rewrite active_entries_eq in Hin. apply entries_in in Hin.
+  destruct Hin as [n Hn]. apply (Hslot (N.of_nat n) e). unfold nthN. rewrite Nat2N.id. exact Hn.
+Qed.
+
+Lemma wf_vals_lt H c : fc_wf H c -> Forall (fun v => v < M64) (rp_active_values (fc_map c)).
+Proof.
+  intros W. destruct W. apply Forall_forall. intros v Hin. unfold rp_active_values in Hin. apply in_map_iff in Hin.
+  destruct Hin as (e & <- & Hin).
+  assert (Hkv : In (e_key e, e_val e) (kv (fc_map c))) by (unfold kv; apply in_map_iff; exists e; auto).
+  pose proof (in_le_sum _ _ _ Hkv). lia.
+Qed.
+
+(* ---------- building the sketch from a validated image ---------- *)
+Lemma build_empty lgm lgc : lgc <= lgm -> lgm <= 62 -> forall hashes, fc_build (ImgEmpty lgm lgc) hashes = Ok (fresh_fc lgm lgc).
+Proof. intros H1 H2 hashes. cbn [fc_build]. apply with_lg_ok; assumption. Qed.
+
+Lemma build_full H lgm lgc w off vals items :
+  lgc <= lgm -> lgm <= 62 -> length items = length vals ->
+  N.of_nat (length vals) <= cap_of_lg (N.max lgc LG_MIN) ->
+  exists m, fc_build (ImgFull lgm lgc w off vals items) (map H (map i64_of_u64 items)) =
+              Ok (mkFc (N.max lgm LG_MIN) (cap_of_lg (N.max lgc LG_MIN)) off w
+                       (N.min SAMPLE_SIZE (cap_of_lg (N.max lgm LG_MIN))) m) /\
+    tinv H m /\ Permutation (kv m) (cs_load [] (map i64_of_u64 items) vals) /\
+    rp_lg m = N.max lgc LG_MIN /\ rp_thr m = load_threshold (2 ^ N.max lgc LG_MIN) /\ rp_len m = 2 ^ N.max lgc LG_MIN.
+Proof.
+  intros H1 H2 Hlen Hcap. cbn [fc_build]. rewrite (with_lg_ok lgm lgc H1 H2). cbn [obind].
+  pose proof (fresh_cur_cap lgm lgc H1 H2) as Hcc.
+  destruct (load_spec H (map i64_of_u64 items) vals (fresh_fc lgm lgc)) as (c1 & E & Hi & P & E1 & E2 & E3 & E4 & E5 & E6 & E7).
+  - unfold fresh_fc. cbn [fc_map]. apply tinv_new.
+  - rewrite Hcc. unfold fresh_fc. cbn [fc_map]. rewrite rp_len_new. apply cap_lt_len. rewrite LG_MIN_val. lia.
+  - rewrite Hcc. unfold fresh_fc, rp_new. cbn [fc_map rp_active]. lia.
+  - rewrite E. cbn [obind]. exists (fc_map c1). rewrite E1, E2, E4, Hcc.
+    unfold fresh_fc in *. cbn [fc_lg_max fc_sample_size fc_map] in *. rewrite kv_new in P.
+    rewrite rp_len_new in E7. unfold rp_new in E5, E6. cbn [rp_lg rp_thr] in E5, E6.
+    splits; try assumption; reflexivity.
+Qed.
+
+(* what an accepted full image gives, in terms of the finite map *)
+Lemma build_full_wf H lgm lgc w off vals items m :
+  LG_MIN <= lgc -> lgc <= lgm -> lgm <= 62 -> length items = length vals ->
+  N.of_nat (length vals) <= cap_of_lg lgc -> N.of_nat (length vals) < 2 ^ 32 ->
+  Forall (fun v => v < M64) items -> off + sumN vals <= w -> w < M64 ->
+  tinv H m -> Permutation (kv m) (cs_load [] (map i64_of_u64 items) vals) ->
+  rp_lg m = lgc -> rp_thr m = load_threshold (2 ^ lgc) -> rp_len m = 2 ^ lgc ->
+  fc_wf H (mkFc lgm (cap_of_lg lgc) off w (N.min SAMPLE_SIZE (cap_of_lg lgm)) m).
+Proof.
+  intros Hmin H1 H2 Hlen Hcap Hu32 Hitems Hsum Hw Hi P El Et En.
+  assert (Hl' : length (map i64_of_u64 items) = length vals) by (rewrite map_length; exact Hlen).
+  destruct (cs_load_props (map i64_of_u64 items) vals [] Hl' ltac:(constructor)) as (Hp & Hs & Hk).
+  assert (Hkl : (length (kv m) <= length vals)%nat).
+  { rewrite (Permutation_length P). clear - Hl'. revert vals Hl'. generalize (map i64_of_u64 items) as its.
+    assert (G : forall its vals l, length its = length vals -> (length (cs_load l its vals) <= length l + length vals)%nat).
+    { induction its as [|k its IH]; intros vals l Hl; destruct vals as [|v vals]; cbn [length] in Hl; try lia; cbn [cs_load length]; [lia|].
+      specialize (IH vals (cs_add0 l k v) ltac:(lia)). unfold cs_add0 in *. pose proof (length_add l k v).
+      destruct (v =? 0); lia. }
+    intros its vals Hl. specialize (G its vals [] Hl). cbn [length] in G. lia. }
+  assert (Hact : rp_active m = N.of_nat (length (kv m))) by (rewrite kv_length; destruct Hi; assumption).
+  constructor; cbn [fc_map fc_lg_max fc_cur_cap fc_sample_size fc_offset fc_weight].
+  - rewrite El. exact Hmin.
+  - rewrite El. split; assumption.
+  - rewrite Et, El. split; [|reflexivity]. symmetry. apply load_threshold_cap. rewrite LG_MIN_val in Hmin. lia.
+  - reflexivity.
+  - rewrite En, El. reflexivity.
+  - destruct Hi; assumption.
+  - rewrite Hact. lia.
+  - rewrite Hact. lia.
+  - apply (tinv_nodup H m Hi).
+  - apply (allpos_perm _ _ (Permutation_sym P)). exact Hp.
+  - apply Forall_forall. intros x Hx.
+    assert (Hx' : In x (keys (cs_load [] (map i64_of_u64 items) vals))).
+    { unfold keys in *. eapply Permutation_in; [apply Permutation_map; exact P|exact Hx]. }
+    destruct (Hk x Hx') as [Hin|[]]. apply in_map_iff in Hin. destruct Hin as (u & <- & Hu).
+    apply i64_of_u64_ok. rewrite Forall_forall in Hitems. apply Hitems. exact Hu.
+  - apply (tinv_hash H m Hi).
+  - rewrite (sum_perm _ _ P), Hs. unfold cs_sum. cbn [map sumN]. split; [lia|exact Hw].
+Qed.
+
+(* ---------- C11: the round trip ---------- *)
+Definition fc_same (H : Z -> N) (c c' : fc) : Prop :=
+  fc_lg_max c' = fc_lg_max c /\ fc_cur_cap c' = fc_cur_cap c /\ fc_offset c' = fc_offset c /\ fc_weight c' = fc_weight c /\
+  fc_sample_size c' = fc_sample_size c /\ rp_lg (fc_map c') = rp_lg (fc_map c) /\ rp_thr (fc_map c') = rp_thr (fc_map c) /\
+  rp_active (fc_map c') = rp_active (fc_map c) /\
+  Permutation (kv (fc_map c')) (kv (fc_map c)) /\
+  (forall k, rp_get (fc_map c') k (H k) = cs_get (kv (fc_map c)) k).
+
+Lemma wf_hashes H c : fc_wf H c -> map e_hash (active_entries (fc_map c)) = map H (rp_active_keys (fc_map c)).
+Proof.
+  intros W. destruct W. unfold rp_active_keys. rewrite map_map. apply map_ext_in. intros e Hin.
+  rewrite Forall_forall in w_hash0. apply w_hash0. exact Hin.
+Qed.
+
+Lemma wf_keys_roundtrip H c : fc_wf H c -> map i64_of_u64 (map u64_of_i64 (rp_active_keys (fc_map c))) = rp_active_keys (fc_map c).
+Proof.
+  intros W. destruct W. rewrite map_map. rewrite <- (map_id (rp_active_keys (fc_map c))) at 2.
+  apply map_ext_in. intros k Hin. apply i64_of_u64_of_i64. rewrite Forall_forall in w_keys0. apply w_keys0.
+  unfold keys, kv. rewrite map_map. cbn [fst]. exact Hin.
+Qed.
+
+Lemma wf_lookup H c : fc_wf H c -> tinv H (fc_map c) -> forall k, rp_get (fc_map c) k (H k) = cs_get (kv (fc_map c)) k.
+Proof. intros W Hi k. apply get_spec; [exact Hi|apply (wf_room H c W)]. Qed.
+
+Theorem roundtrip H c : fc_wf H c ->
+  exists c', fc_deserialize (fc_serialize c) (map e_hash (active_entries (fc_map c))) = Ok c' /\
+             fc_same H c c' /\ fc_wf H c' /\ tinv H (fc_map c').
+Proof.
+  intros W. pose proof (wf_cur_cap H c W) as Hcc. pose proof (wf_hashes H c W) as Hh.
+  pose proof (wf_keys_roundtrip H c W) as Hkr. pose proof (wf_vals_lt H c W) as Hvl.
+  destruct W as [Wlgc [Wlgm Wlgm62] [Wcap Wthr] Wss Wlen Wact Wfit Wu32 Wnd Wpos Wkeys Whash [Wsum Ww]].
+  assert (Hmax1 : N.max (rp_lg (fc_map c)) LG_MIN = rp_lg (fc_map c)) by lia.
+  assert (Hmax2 : N.max (fc_lg_max c) LG_MIN = fc_lg_max c) by lia.
+  unfold fc_deserialize.
+  destruct (N.eq_dec (fc_weight c) 0) as [Hw0|Hw0].
+  - (* no stream weight: the one-long form *)
+    assert (Hnil : kv (fc_map c) = []).
+    { destruct (kv (fc_map c)) as [|[k v] r] eqn:E; [reflexivity|]. exfalso.
+      inversion Wpos as [|? ? Hv _]; subst. cbn [snd] in Hv. unfold cs_sum in Wsum. cbn [map snd sumN] in Wsum. lia. }
+    assert (Hes : active_entries (fc_map c) = []).
+    { unfold kv in Hnil. destruct (active_entries (fc_map c)); [reflexivity|discriminate]. }
+    rewrite (serialize_empty c Hw0).
+    rewrite (parse_empty 1 _ _ 5 0 [] eq_refl Wlgm Wlgm62 ltac:(discriminate)). cbn [obind].
+    rewrite (build_empty _ _ Wlgm Wlgm62). eexists. split; [reflexivity|].
+    unfold fresh_fc. rewrite Hmax1, Hmax2.
+    assert (Hoff : fc_offset c = 0) by lia.
+    split; [|split].
+    + unfold fc_same. cbn [fc_lg_max fc_cur_cap fc_offset fc_weight fc_sample_size fc_map]. rewrite kv_new, Hnil.
+      unfold rp_new at 1 2 3 4. cbn [rp_thr rp_lg rp_active].
+      splits; try congruence; try reflexivity.
+      * rewrite Wact, Hes. reflexivity.
+      * intros k. rewrite (get_spec H _ k (tinv_new H _)); [rewrite kv_new; reflexivity|].
+        unfold room. rewrite rp_len_new, active_entries_eq. unfold rp_new. cbn [rp_tab]. rewrite entries_repeat_none.
+        cbn [length]. pose proof (pow2_pos (rp_lg (fc_map c))). lia.
+    + pose proof (tinv_new H (rp_lg (fc_map c))) as Hi.
+      constructor; cbn [fc_lg_max fc_cur_cap fc_offset fc_weight fc_sample_size fc_map]; rewrite ?kv_new.
+      * unfold rp_new; cbn [rp_lg]; exact Wlgc.
+      * unfold rp_new; cbn [rp_lg]; split; assumption.
+      * unfold rp_new; cbn [rp_lg rp_thr]; split; reflexivity.
+      * reflexivity.
+      * rewrite rp_len_new. reflexivity.
+      * destruct Hi; assumption.
+      * unfold rp_new; cbn [rp_active]. lia.
+      * unfold rp_new; cbn [rp_active]. lia.
+      * constructor.
+      * constructor.
+      * constructor.
+      * apply (tinv_hash H _ Hi).
+      * unfold cs_sum. cbn [map sumN]. unfold M64. lia.
+    + apply tinv_new.
+  - (* the full form *)
+    set (es := active_entries (fc_map c)) in *.
+    assert (Hn : fc_num_active c = N.of_nat (length (rp_active_values (fc_map c)))).
+    { unfold fc_num_active, rp_active_values. rewrite map_length. exact Wact. }
+    assert (Hli : length (map u64_of_i64 (rp_active_keys (fc_map c))) = length (rp_active_values (fc_map c))).
+    { unfold rp_active_keys, rp_active_values. rewrite !map_length. reflexivity. }
+    assert (Hsumv : sumN (rp_active_values (fc_map c)) = cs_sum (kv (fc_map c))).
+    { unfold cs_sum, kv, rp_active_values. rewrite map_map. reflexivity. }
+    rewrite (serialize_full c Hw0).
+    rewrite (parse_full 4 _ _ 0 0 _ 0 _ _ _ _ [] eq_refl Wlgm Wlgm62 eq_refl Hn Hli).
+    2:{ unfold fc_num_active. exact Wu32. }
+    2:{ exact Ww. }
+    2:{ lia. }
+    2:{ exact Hvl. }
+    2:{ apply Forall_forall. intros u Hu. apply in_map_iff in Hu. destruct Hu as (z & <- & _). apply u64_of_i64_lt. }
+    2:{ rewrite Hmax1, (cap_alt _ ltac:(rewrite LG_MIN_val in Wlgc; exact Wlgc)). unfold fc_num_active. lia. }
+    2:{ rewrite Hsumv. exact Wsum. }
+    cbn [obind]. rewrite Hh.
+    replace (map H (rp_active_keys (fc_map c))) with (map H (map i64_of_u64 (map u64_of_i64 (rp_active_keys (fc_map c)))))
+      by (rewrite Hkr; reflexivity).
+    destruct (build_full H (fc_lg_max c) (rp_lg (fc_map c)) (fc_weight c) (fc_offset c) (rp_active_values (fc_map c))
+                (map u64_of_i64 (rp_active_keys (fc_map c))) Wlgm Wlgm62 Hli) as (m & E & Hi & P & El & Et & En).
+    { rewrite Hmax1, <- Hn. unfold fc_num_active. lia. }
+    rewrite E. rewrite Hkr in P. rewrite Hmax1, Hmax2 in *.
+    eexists. split; [reflexivity|].
+    assert (Hload : cs_load [] (rp_active_keys (fc_map c)) (rp_active_values (fc_map c)) = kv (fc_map c)).
+    { rewrite cs_load_distinct.
+      - cbn [app]. unfold rp_active_keys, rp_active_values. apply combine_map_entries.
+      - unfold rp_active_keys, rp_active_values. rewrite !map_length. reflexivity.
+      - cbn [keys map app]. unfold keys, kv in Wnd. rewrite map_map in Wnd. cbn [fst] in Wnd. exact Wnd.
+      - apply Forall_forall. intros v Hv. unfold rp_active_values in Hv. apply in_map_iff in Hv. destruct Hv as (e & <- & He).
+        unfold allpos in Wpos. rewrite Forall_forall in Wpos.
+        specialize (Wpos (e_key e, e_val e)). cbn [snd] in Wpos.
+        assert (0 < e_val e); [|lia]. apply Wpos. unfold kv. apply in_map_iff. exists e. auto. }
+    rewrite Hload in P.
+    assert (Wf' : fc_wf H (mkFc (fc_lg_max c) (cap_of_lg (rp_lg (fc_map c))) (fc_offset c) (fc_weight c)
+                              (N.min SAMPLE_SIZE (cap_of_lg (fc_lg_max c))) m)).
+    { apply (build_full_wf H _ _ _ _ (rp_active_values (fc_map c)) (map u64_of_i64 (rp_active_keys (fc_map c)))); try assumption.
+      - rewrite <- Hn. unfold fc_num_active. lia.
+      - rewrite <- Hn. unfold fc_num_active. exact Wu32.
+      - apply Forall_forall. intros u Hu. apply in_map_iff in Hu. destruct Hu as (z & <- & _). apply u64_of_i64_lt.
+      - rewrite Hsumv. exact Wsum.
+      - rewrite Hkr, Hload. exact P. }
+    split; [|split; [exact Wf'|exact Hi]].
+    unfold fc_same. cbn [fc_lg_max fc_cur_cap fc_offset fc_weight fc_sample_size fc_map].
+    refine (conj eq_refl (conj (eq_sym Hcc) (conj eq_refl (conj eq_refl (conj (eq_sym Wss) (conj El (conj _ (conj _ (conj P _))))))))).
+    + congruence.
+    + destruct Hi as [_ _ Ha]. rewrite Ha, <- kv_length, (Permutation_length P), kv_length. symmetry. exact Wact.
+    + intros k. pose proof (wf_lookup H _ Wf' Hi k) as L. cbn [fc_map] in L. rewrite L.
+      symmetry. apply cs_get_perm; [exact Wnd|apply Permutation_sym; exact P].
+Qed.
+
+(* ---------- C12: the emitted image conforms to the layout specification ---------- *)
+Lemma wf_weight0 H c : fc_wf H c -> fc_weight c = 0 -> kv (fc_map c) = [] /\ fc_offset c = 0.
+Proof.
+  intros W Hw0. destruct W. destruct w_weight0 as [Wsum _].
+  assert (Hnil : kv (fc_map c) = []).
+  { destruct (kv (fc_map c)) as [|[k v] r] eqn:E; [reflexivity|]. exfalso.
+    inversion w_pos0 as [|? ? Hv _]; subst. cbn [snd] in Hv. unfold cs_sum in Wsum. cbn [map snd sumN] in Wsum. lia. }
+  split; [exact Hnil|]. rewrite Hnil in Wsum. unfold cs_sum in Wsum. cbn [map sumN] in Wsum. lia.
+Qed.
+
+Theorem writer_conforms H c : fc_wf H c -> spec_decode (fc_serialize c) = Some (abs_fc c).
+Proof.
+  intros W. pose proof (wf_keys_roundtrip H c W) as Hkr. pose proof (wf_vals_lt H c W) as Hvl.
+  destruct (N.eq_dec (fc_weight c) 0) as [Hw0|Hw0].
+  - destruct (wf_weight0 H c W Hw0) as [Hnil Hoff].
+    rewrite (serialize_empty c Hw0). rewrite (spec_empty 1 _ _ 5 0 [] eq_refl ltac:(lia) ltac:(discriminate)).
+    unfold abs_fc. rewrite Hnil, Hoff, Hw0. reflexivity.
+  - destruct W as [Wlgc [Wlgm Wlgm62] [Wcap Wthr] Wss Wlen Wact Wfit Wu32 Wnd Wpos Wkeys Whash [Wsum Ww]].
+    assert (Hn : fc_num_active c = N.of_nat (length (rp_active_values (fc_map c)))).
+    { unfold fc_num_active, rp_active_values. rewrite map_length. exact Wact. }
+    assert (Hli : length (map u64_of_i64 (rp_active_keys (fc_map c))) = length (rp_active_values (fc_map c))).
+    { unfold rp_active_keys, rp_active_values. rewrite !map_length. reflexivity. }
+    rewrite (serialize_full c Hw0).
+    rewrite (spec_full 4 _ _ 0 0 _ 0 _ _ _ _ [] eq_refl ltac:(lia) eq_refl Hn Hli).
+    + unfold abs_fc. f_equal. f_equal. rewrite (map_ext spec_i64 i64_of_u64 spec_i64_eq), Hkr.
+      unfold rp_active_keys, rp_active_values. apply combine_map_entries.
+    + unfold fc_num_active. exact Wu32.
+    + exact Ww.
+    + lia.
+    + exact Hvl.
+    + apply Forall_forall. intros u Hu. apply in_map_iff in Hu. destruct Hu as (z & <- & _). apply u64_of_i64_lt.
+Qed.
+
+(* ---------- C18: the image size ---------- *)
+Theorem image_size c : rp_active (fc_map c) = N.of_nat (length (active_entries (fc_map c))) ->
+  length (fc_serialize c) = spec_size (fc_weight c) (length (active_entries (fc_map c))).
+Proof.
+  intros Hact. unfold spec_size. destruct (N.eqb_spec (fc_weight c) 0) as [Hw0|Hw0].
+  - rewrite (serialize_empty c Hw0). reflexivity.
+  - rewrite (serialize_full c Hw0). unfold img_full. cbn [le_bytes app length].
+    rewrite !app_length, !flat_map_le8_length. unfold rp_active_values, rp_active_keys. rewrite !map_length. cbn [length]. lia.
+Qed.
+
+Theorem image_size_bound H c : fc_wf H c ->
+  (length (fc_serialize c) <= 32 + 16 * N.to_nat (cap_of_lg (fc_lg_max c)))%nat.
+Proof.
+  intros W. pose proof (wf_cur_cap H c W) as Hcc. destruct W.
+  rewrite (image_size c w_active0). unfold spec_size.
+  assert (cap_of_lg (rp_lg (fc_map c)) <= cap_of_lg (fc_lg_max c)).
+  { unfold cap_of_lg. apply N.div_le_mono; [rewrite LOAD_DEN_val; lia|]. apply N.mul_le_mono_r. apply N.pow_le_mono_r; lia. }
+  destruct (fc_weight c =? 0); lia.
+Qed.
+
+(* ---------- a fresh sketch is well-formed ---------- *)
+Lemma fresh_wf H lgm lgc : LG_MIN <= lgc -> lgc <= lgm -> lgm <= 62 -> fc_wf H (fresh_fc lgm lgc) /\ tinv H (fc_map (fresh_fc lgm lgc)).
+Proof.
+  intros H0 H1 H2. unfold fresh_fc. rewrite !N.max_l by lia. cbn [fc_map].
+  pose proof (tinv_new H lgc) as Hi. split; [|exact Hi].
+  constructor; cbn [fc_lg_max fc_cur_cap fc_offset fc_weight fc_sample_size fc_map]; rewrite ?kv_new.
+  - exact H0.
+  - unfold rp_new; cbn [rp_lg]; split; assumption.
+  - unfold rp_new; cbn [rp_lg rp_thr]; split; reflexivity.
+  - reflexivity.
+  - rewrite rp_len_new. reflexivity.
+  - destruct Hi; assumption.
+  - unfold rp_new; cbn [rp_active]. lia.
+  - unfold rp_new; cbn [rp_active]. lia.
+  - constructor.
+  - constructor.
+  - constructor.
+  - apply (tinv_hash H _ Hi).
+  - unfold cs_sum. cbn [map sumN]. unfold M64. lia.
+Qed.
+
+(* ---------- C13: every image the layout allows is read back to the state it encodes ---------- *)
+Record abs_wf (a : fi_abs) : Prop := {
+  aw_lg : 3 <= a_lg_cur a /\ a_lg_cur a <= a_lg_max a /\ a_lg_max a <= 62;
+  aw_nodup : NoDup (keys (a_counters a));
+  aw_pos : allpos (a_counters a);
+  aw_keys : Forall i64_ok (keys (a_counters a));
+  aw_fit : N.of_nat (length (a_counters a)) <= spec_capacity (a_lg_cur a) /\ N.of_nat (length (a_counters a)) < 2 ^ 32;
+  aw_weight : a_offset a + cs_sum (a_counters a) <= a_weight a /\ a_weight a < M64
+}.
+
+Lemma hibits_land hb x : hb < 4 -> x < 64 -> N.land (x + 64 * hb) 63 = x /\ (x + 64 * hb) mod 64 = x.
+Proof.
+  intros Hh Hx. rewrite land63. replace (x + 64 * hb) with (x + hb * 64) by lia. rewrite N.mod_add by lia.
+  rewrite N.mod_small by exact Hx. split; reflexivity.
+Qed.
+
+Definition abs_same (a a' : fi_abs) : Prop :=
+  a_lg_max a' = a_lg_max a /\ a_lg_cur a' = a_lg_cur a /\ a_weight a' = a_weight a /\ a_offset a' = a_offset a /\
+  Permutation (a_counters a') (a_counters a).
+
+Lemma enc_short v a : use_short v a = true ->
+  enc_spec v a = img_empty (1 + 64 * v_hibits v) (a_lg_max a) (a_lg_cur a) (v_flags v) (v_unused16 v) [].
+Proof. intros E. unfold enc_spec, img_empty. rewrite E, app_nil_r. reflexivity. Qed.
+
+Lemma enc_full v a : use_short v a = false ->
+  enc_spec v a = img_full (4 + 64 * v_hibits v) (a_lg_max a) (a_lg_cur a) (v_flags v) (v_unused16 v)
+                   (N.of_nat (length (a_counters a))) (v_unused32 v) (a_weight a) (a_offset a)
+                   (map snd (a_counters a)) (map (fun p => spec_u64 (fst p)) (a_counters a)) [].
+Proof. intros E. unfold enc_spec, img_full. rewrite E, !flat_map_map, app_nil_r. reflexivity. Qed.
+
+Lemma abs_items_roundtrip (cs : counters) : Forall i64_ok (keys cs) ->
+  map i64_of_u64 (map (fun p => spec_u64 (fst p)) cs) = map fst cs.
+Proof.
+  intros Hk. rewrite map_map. apply map_ext_in. intros p Hin. rewrite spec_u64_eq. apply i64_of_u64_of_i64.
+  rewrite Forall_forall in Hk. apply Hk. unfold keys. apply in_map. exact Hin.
+Qed.
+
+Lemma combine_fst_snd {A B} (l : list (A * B)) : combine (map fst l) (map snd l) = l.
+Proof. induction l as [|[x y] l IH]; cbn [map combine fst snd]; [reflexivity|]. rewrite IH. reflexivity. Qed.
+
+Theorem reads_spec H v a : abs_wf a -> variant_ok v a ->
+  exists s, fc_deserialize (enc_spec v a) (map H (map fst (a_counters a))) = Ok s /\
+            abs_same a (abs_fc s) /\ fc_wf H s /\ tinv H (fc_map s) /\
+            (forall k, rp_get (fc_map s) k (H k) = cs_get (a_counters a) k).
+Proof.
+  intros [[Alg3 [Alg Alg62]] And Apos Akeys [Afit Au32] [Asum Aw]] (Vhb & Vfl & Vu16 & Vu32 & Vform).
+  rewrite (spec_capacity_cap _ Alg3) in Afit.
+  assert (Hmin : LG_MIN <= a_lg_cur a) by (rewrite LG_MIN_val; exact Alg3).
+  unfold fc_deserialize. destruct (use_short v a) eqn:Eshort.
+  - (* the one-long form *)
+    rewrite (enc_short v a Eshort).
+    unfold use_short in Eshort. apply andb_prop in Eshort as [_ Ew]. apply N.eqb_eq in Ew.
+    assert (Hnil : a_counters a = []).
+    { destruct (a_counters a) as [|[k c] r] eqn:E; [reflexivity|]. exfalso.
+      inversion Apos as [|? ? Hv _]; subst. cbn [snd] in Hv. unfold cs_sum in Asum. cbn [map snd sumN] in Asum. lia. }
+    assert (Hoff : a_offset a = 0) by (rewrite Hnil in Asum; unfold cs_sum in Asum; cbn [map sumN] in Asum; lia).
+    destruct (hibits_land (v_hibits v) 1 Vhb ltac:(lia)) as [Hl _].
+    rewrite (parse_empty _ _ _ _ _ [] Hl Alg Alg62 Vform). cbn [obind].
+    rewrite (build_empty _ _ Alg Alg62). eexists. split; [reflexivity|].
+    destruct (fresh_wf H (a_lg_max a) (a_lg_cur a) Hmin Alg Alg62) as [Wf Hi].
+    split; [|split; [exact Wf|split; [exact Hi|]]].
+    + unfold abs_same, abs_fc, fresh_fc. rewrite !N.max_l by lia. cbn [fc_lg_max fc_map fc_weight fc_offset a_lg_max a_lg_cur a_weight a_offset a_counters].
+      rewrite kv_new, Hnil. unfold rp_new; cbn [rp_lg]. splits; try congruence; reflexivity.
+    + intros k. rewrite (wf_lookup H _ Wf Hi k). unfold fresh_fc. cbn [fc_map]. rewrite kv_new, Hnil. reflexivity.
+  - (* the four-long form *)
+    rewrite (enc_full v a Eshort).
+    destruct (hibits_land (v_hibits v) 4 Vhb ltac:(lia)) as [Hl _].
+    set (cs := a_counters a) in *.
+    assert (Hlen : length (map (fun p => spec_u64 (fst p)) cs) = length (map snd cs)) by (rewrite !map_length; reflexivity).
+    assert (Hvals : Forall (fun c => c < M64) (map snd cs)).
+    { apply Forall_forall. intros c Hc. apply in_map_iff in Hc. destruct Hc as ([k c'] & <- & Hin). cbn [snd].
+      pose proof (in_le_sum _ _ _ Hin). lia. }
+    assert (Hitems : Forall (fun u => u < M64) (map (fun p => spec_u64 (fst p)) cs)).
+    { apply Forall_forall. intros u Hu. apply in_map_iff in Hu. destruct Hu as (p & <- & _). rewrite spec_u64_eq. apply u64_of_i64_lt. }
+    rewrite (parse_full _ _ _ _ _ _ _ _ _ _ _ [] Hl Alg Alg62 Vform).
+    2:{ rewrite map_length. reflexivity. }
+    2:{ exact Hlen. }
+    2:{ exact Au32. }
+    2:{ exact Aw. }
+    2:{ lia. }
+    2:{ exact Hvals. }
+    2:{ exact Hitems. }
+    2:{ rewrite N.max_l by lia. rewrite (cap_alt _ Alg3). exact Afit. }
+    2:{ exact Asum. }
+    cbn [obind].
+    pose proof (abs_items_roundtrip cs Akeys) as Hkr.
+    destruct (build_full H (a_lg_max a) (a_lg_cur a) (a_weight a) (a_offset a) (map snd cs)
+                (map (fun p => spec_u64 (fst p)) cs) Alg Alg62 Hlen) as (m & E & Hi & P & El & Et & En).
+    { rewrite N.max_l by lia. rewrite map_length. exact Afit. }
+    rewrite Hkr in E, P. rewrite E. rewrite !N.max_l in * by lia.
+    assert (Hload : cs_load [] (map fst cs) (map snd cs) = cs).
+    { rewrite cs_load_distinct.
+      - cbn [app]. apply combine_fst_snd.
+      - rewrite !map_length. reflexivity.
+      - cbn [keys map app]. exact And.
+      - apply Forall_forall. intros c Hc. apply in_map_iff in Hc. destruct Hc as ([k c'] & <- & Hin). cbn [snd].
+        unfold allpos in Apos. rewrite Forall_forall in Apos. specialize (Apos _ Hin). cbn [snd] in Apos. lia. }
+    rewrite Hload in P.
+    assert (Wf : fc_wf H (mkFc (a_lg_max a) (cap_of_lg (a_lg_cur a)) (a_offset a) (a_weight a)
+                             (N.min SAMPLE_SIZE (cap_of_lg (a_lg_max a))) m)).
+    { apply (build_full_wf H _ _ _ _ (map snd cs) (map (fun p => spec_u64 (fst p)) cs)); try assumption.
+      - rewrite map_length. exact Afit.
+      - rewrite map_length. exact Au32.
+      - rewrite Hkr, Hload. exact P. }
+    eexists. split; [reflexivity|]. split; [|split; [exact Wf|split; [exact Hi|]]].
+    + unfold abs_same, abs_fc. cbn [fc_lg_max fc_map fc_weight fc_offset a_lg_max a_lg_cur a_weight a_offset a_counters].
+      splits; try congruence; try reflexivity. exact P.
+    + intros k. pose proof (wf_lookup H _ Wf Hi k) as L. cbn [fc_map] in L |- *. rewrite L.
+      symmetry. apply cs_get_perm; [exact And|apply Permutation_sym; exact P].
+Qed.
+
+(* the specification is self-consistent: its decoder inverts its encoder *)
+Theorem spec_decode_enc_spec v a : abs_wf a -> variant_ok v a ->
+  spec_decode (enc_spec v a) = Some a.
+Proof.
+  intros [[Alg3 [Alg Alg62]] And Apos Akeys [Afit Au32] [Asum Aw]] (Vhb & Vfl & Vu16 & Vu32 & Vform).
+  destruct (use_short v a) eqn:Eshort.
+  - rewrite (enc_short v a Eshort).
+    unfold use_short in Eshort. apply andb_prop in Eshort as [_ Ew]. apply N.eqb_eq in Ew.
+    assert (Hnil : a_counters a = []).
+    { destruct (a_counters a) as [|[k c] r] eqn:E; [reflexivity|]. exfalso.
+      inversion Apos as [|? ? Hv _]; subst. cbn [snd] in Hv. unfold cs_sum in Asum. cbn [map snd sumN] in Asum. lia. }
+    assert (Hoff : a_offset a = 0) by (rewrite Hnil in Asum; unfold cs_sum in Asum; cbn [map sumN] in Asum; lia).
+    destruct (hibits_land (v_hibits v) 1 Vhb ltac:(lia)) as [_ Hm].
+    rewrite (spec_empty _ _ _ _ _ [] Hm Vfl Vform). destruct a; cbn in *; subst; reflexivity.
+  - rewrite (enc_full v a Eshort).
+    destruct (hibits_land (v_hibits v) 4 Vhb ltac:(lia)) as [_ Hm].
+    rewrite (spec_full _ _ _ _ _ _ _ _ _ _ _ [] Hm Vfl Vform).
+    + rewrite (map_ext spec_i64 i64_of_u64 spec_i64_eq), (abs_items_roundtrip _ Akeys), combine_fst_snd.
+      destruct a; reflexivity.
+    + rewrite map_length. reflexivity.
+    + rewrite !map_length. reflexivity.
+    + exact Au32.
+    + exact Aw.
+    + lia.
+    + apply Forall_forall. intros c Hc. apply in_map_iff in Hc. destruct Hc as ([k c'] & <- & Hin). cbn [snd].
+      pose proof (in_le_sum _ _ _ Hin). lia.
+    + apply Forall_forall. intros u Hu. apply in_map_iff in Hu. destruct Hu as (p & <- & _). rewrite spec_u64_eq. apply u64_of_i64_lt.
+Qed.
+
+(* ---------- C14: the reader on arbitrary bytes ---------- *)
+(* what validation guarantees about an accepted image *)
+Definition image_ok (bs : list N) (img : fc_image) : Prop :=
+  match img with
+  | ImgEmpty lgm lgc => lgm = nth 3 bs 0 /\ lgc = nth 4 bs 0 /\ lgc <= lgm /\ lgm <= 62
+  | ImgFull lgm lgc w off vals items =>
+      lgm = nth 3 bs 0 /\ lgc = nth 4 bs 0 /\ lgc <= lgm /\ lgm <= 62 /\ length items = length vals /\
+      N.of_nat (length vals) <= cap_of_lg (N.max lgc LG_MIN) /\ off + sumN vals <= w /\
+      (32 + 16 * length vals <= length bs)%nat /\
+      N.of_nat (length vals) = le_val (firstn 4 (skipn 8 bs)) /\
+      (bytes_ok bs = true -> w < M64 /\ off < M64 /\ N.of_nat (length vals) < 2 ^ 32 /\
+                             Forall (fun v => v < M64) vals /\ Forall (fun v => v < M64) items)
+  end.
+
+Lemma parse_sound bs : match fc_parse bs with Ok img => image_ok bs img | Err => True | Stuck => False end.
+Proof.
+  unfold fc_parse.
+  destruct (length bs <? 8)%nat; [exact I|].
+  destruct (negb (nth 2 bs 0 =? _)); [exact I|].
+  destruct (negb (nth 1 bs 0 =? _)); [exact I|].
+  destruct (N.ltb_spec (nth 3 bs 0) (nth 4 bs 0)) as [|Hlg]; [exact I|].
+  destruct (N.leb_spec M64 (2 ^ nth 3 bs 0 * LOAD_NUM)) as [|Hm]; [exact I|].
+  assert (Hlgm : nth 3 bs 0 <= 62).
+  { destruct (N.le_gt_cases (nth 3 bs 0) 62) as [|Hgt]; [assumption|].
+    pose proof (pow2_ge_63 (nth 3 bs 0) ltac:(lia)). rewrite LOAD_NUM_val in Hm. lia. }
+  destruct (negb (N.land (nth 5 bs 0) _ =? 0)).
+  - destruct (negb (_ =? _)); [exact I|]. cbn [image_ok]. auto.
+  - destruct (negb (_ =? _)); [exact I|].
+    destruct (Nat.ltb_spec (length bs) 32) as [|Hl32]; [exact I|].
+    set (active := le_val (firstn 4 (skipn 8 bs))).
+    destruct (N.ltb_spec ((N.of_nat (length bs) - zN GenFreq.PREAMBLE_LONGS_NONEMPTY * 8) / 8) active) as [|Hpay]; [exact I|].
+    destruct (N.ltb_spec (2 ^ N.max (nth 4 bs 0) LG_MIN / LOAD_DEN * LOAD_NUM) active) as [|Hcap]; [exact I|].
+    destruct (read_u64s (N.to_nat active) (skipn 32 bs)) as [[vals rest]|] eqn:E1; [|exact I].
+    destruct (N.ltb_spec (le_val (firstn 8 (skipn 16 bs))) (le_val (firstn 8 (skipn 24 bs)) + sumN vals)) as [|Hsum]; [exact I|].
+    destruct (read_u64s (N.to_nat active) rest) as [[items rest2]|] eqn:E2; [|exact I].
+    apply read_u64s_ok in E1 as (Hl1 & Hb1 & Hr1 & Hall1). apply read_u64s_ok in E2 as (Hl2 & Hb2 & Hr2 & Hall2).
+    rewrite skipn_length in Hb1.
+    cbn [image_ok]. splits; try reflexivity; try assumption.
+    + congruence.
+    + rewrite Hl1, N2Nat.id. rewrite cap_alt in Hcap; [exact Hcap|rewrite LG_MIN_val; lia].
+    + lia.
+    + rewrite Hl1, N2Nat.id. reflexivity.
+    + intros Hok.
+      assert (B8 : forall k, le_val (firstn 8 (skipn k bs)) < M64).
+      { intros k. unfold M64. change 18446744073709551616 with (256 ^ N.of_nat 8).
+        apply le_val_lt; [apply bytes_ok_firstn, bytes_ok_skipn, Hok|rewrite firstn_length; lia]. }
+      splits; try apply B8.
+      * rewrite Hl1, N2Nat.id. unfold active. change (2 ^ 32) with (256 ^ N.of_nat 4).
+        apply le_val_lt; [apply bytes_ok_firstn, bytes_ok_skipn, Hok|rewrite firstn_length; lia].
+      * apply Hall1. apply bytes_ok_skipn. exact Hok.
+      * apply Hall2. rewrite Hr1. apply bytes_ok_skipn, bytes_ok_skipn. exact Hok.
+Qed.
+
+Lemma parse_never_stuck bs : fc_parse bs <> Stuck.
+Proof. pose proof (parse_sound bs) as S. destruct (fc_parse bs); [discriminate|discriminate|contradiction]. Qed.
+
+Lemma build_never_stuck bs img hashes : image_ok bs img -> exists c, fc_build img hashes = Ok c.
+Proof.
+  destruct img as [lgm lgc|lgm lgc w off vals items]; cbn [image_ok].
+  - intros (_ & _ & H1 & H2). exists (fresh_fc lgm lgc). apply build_empty; assumption.
+  - intros (_ & _ & H1 & H2 & Hlen & Hcap & _). cbn [fc_build]. rewrite (with_lg_ok lgm lgc H1 H2). cbn [obind].
+    destruct (load_total (map i64_of_u64 items) hashes vals (fresh_fc lgm lgc)) as (c' & E & _).
+    { rewrite (fresh_cur_cap lgm lgc H1 H2). unfold fresh_fc, rp_new. cbn [fc_map rp_active]. lia. }
+    rewrite E. cbn [obind]. eexists. reflexivity.
+Qed.
+
+(* for ANY byte list and ANY hash list the reader returns Ok or Err *)
+Theorem deserialize_never_stuck bs hashes : fc_deserialize bs hashes <> Stuck.
+Proof.
+  unfold fc_deserialize. pose proof (parse_sound bs) as S.
+  destruct (fc_parse bs) as [img| |]; cbn [obind]; [|discriminate|contradiction].
+  destruct (build_never_stuck bs img hashes S) as [c E]. rewrite E. discriminate.
+Qed.
+
+(* the items of an accepted image, in image order (the crate hashes them itself) *)
+Definition fc_items (bs : list N) : list Z :=
+  match fc_parse bs with Ok (ImgFull _ _ _ _ _ items) => map i64_of_u64 items | _ => [] end.
+
+(* whatever the reader accepts is a well-formed sketch (and its table satisfies the probe invariant) *)
+Theorem deserialize_ok_wf H bs c : bytes_ok bs = true ->
+  fc_deserialize bs (map H (fc_items bs)) = Ok c -> fc_wf H c /\ tinv H (fc_map c) /\
+  rp_len (fc_map c) = fc_deser_table_slots bs.
+Proof.
+  intros Hok. unfold fc_deserialize, fc_items. pose proof (parse_sound bs) as S.
+  destruct (fc_parse bs) as [img| |]; cbn [obind]; [|discriminate|contradiction].
+  destruct img as [lgm lgc|lgm lgc w off vals items]; cbn [image_ok] in S.
+  - destruct S as (-> & -> & H1 & H2). rewrite (build_empty _ _ H1 H2). intros E. inversion E; subst c.
+    unfold fc_deser_table_slots.
+    (* lg_cur below LG_MIN is raised to LG_MIN by with_lg_map_sizes *)
+    assert (Hf : fresh_fc (nth 3 bs 0) (nth 4 bs 0) = fresh_fc (N.max (nth 3 bs 0) LG_MIN) (N.max (nth 4 bs 0) LG_MIN)).
+    { assert (Hmm : forall x, N.max (N.max x LG_MIN) LG_MIN = N.max x LG_MIN) by (intros; lia).
+      unfold fresh_fc. rewrite !Hmm. reflexivity. }
+    rewrite Hf. destruct (fresh_wf H (N.max (nth 3 bs 0) LG_MIN) (N.max (nth 4 bs 0) LG_MIN)) as [Wf Hi].
+    { lia. } { lia. } { rewrite LG_MIN_val. lia. }
+    split; [exact Wf|split; [exact Hi|]]. unfold fresh_fc. cbn [fc_map]. rewrite rp_len_new.
+    f_equal. lia.
+  - destruct S as (-> & -> & H1 & H2 & Hlen & Hcap & Hsum & Hlb & _ & Hb). destruct (Hb Hok) as (Hw & Hoff & Hu32 & Hvals & Hitems).
+    destruct (build_full H _ _ w off vals items H1 H2 Hlen Hcap) as (m & E & Hi & P & El & Et & En).
+    rewrite E. intros E'. inversion E'; subst c. cbn [fc_map].
+    split; [|split; [exact Hi|rewrite En; reflexivity]].
+    apply (build_full_wf H _ _ _ _ vals items); try assumption; try lia.
+    + rewrite LG_MIN_val. lia.
+Qed.
+
+(* allocation: the two vectors are requested only once their contents are known to be present,
+   so they are bounded by the input; nothing is allocated for a rejected image; the table of an
+   accepted image has the 2^lg_cur slots byte 4 announces (inherent in the format) *)
+Theorem deser_vec_bytes_bound bs : fc_deser_vec_bytes bs <= 2 * N.of_nat (length bs).
+Proof.
+  unfold fc_deser_vec_bytes. destruct (Nat.ltb_spec (length bs) 32); [lia|].
+  change (zN GenFreq.PREAMBLE_LONGS_NONEMPTY * 8) with 32.
+  set (active := le_val (firstn 4 (skipn 8 bs))).
+  destruct (N.ltb_spec ((N.of_nat (length bs) - 32) / 8) active) as [|Hp]; [lia|].
+  assert (8 * ((N.of_nat (length bs) - 32) / 8) <= N.of_nat (length bs) - 32) by (apply N.mul_div_le; lia).
+  lia.
+Qed.
+
+Theorem deser_vec_bytes_exact bs lgm lgc w off vals items : fc_parse bs = Ok (ImgFull lgm lgc w off vals items) ->
+  fc_deser_vec_bytes bs = 16 * N.of_nat (length vals).
+Proof.
+  intros E. pose proof (parse_sound bs) as S. rewrite E in S. cbn [image_ok] in S.
+  destruct S as (_ & _ & _ & _ & _ & _ & _ & Hlb & Hact & _).
+  unfold fc_deser_vec_bytes. destruct (Nat.ltb_spec (length bs) 32); [lia|].
+  change (zN GenFreq.PREAMBLE_LONGS_NONEMPTY * 8) with 32. rewrite <- Hact.
+  destruct (N.ltb_spec ((N.of_nat (length bs) - 32) / 8) (N.of_nat (length vals))) as [Hbad|]; [|reflexivity].
+  exfalso. assert (N.of_nat (length vals) <= (N.of_nat (length bs) - 32) / 8) by (apply N.div_le_lower_bound; lia). lia.
+Qed.
+
+(* ---------- reachable states are well-formed (abstract level) ---------- *)
+(* Every sketch a history can produce, for any purge samples and merge orders (C07's [runs]),
+   has duplicate-free positive counters that fit the current capacity, and counters plus offset
+   never exceed the stream weight. *)
+Record fi_wf (s : fi) : Prop := {
+  fw_lg : LG_MIN <= fi_lg_cur s /\ fi_lg_cur s <= fi_lg_max s /\ fi_lg_max s <= 62;
+  fw_nodup : NoDup (keys (fi_cs s));
+  fw_pos : allpos (fi_cs s);
+  fw_keys : Forall i64_ok (keys (fi_cs s));
+  fw_fit : fi_num_active s <= fi_cur_cap s;
+  fw_weight : fi_offset s + cs_sum (fi_cs s) <= fi_weight s /\ fi_weight s < M64
+}.
+
+Theorem reachable_fi_wf h s : runs h s -> weight h < M64 -> lgm h <= 62 -> (forall x, 0 < truth h x -> i64_ok x) -> fi_wf s.
+Proof.
+  intros R Hw Hlg Hitems. destruct (runs_good h s R) as ([Hnd Hpos Hbr Hpot Hlgmin Hlgmax Hcap Hhm1 Hhm] & Ew & El).
+  constructor.
+  - splits; [exact Hlgmin|exact Hlgmax|rewrite El; exact Hlg].
+  - exact Hnd.
+  - exact Hpos.
+  - apply Forall_forall. intros x Hx. apply Hitems. destruct (Hbr x) as [Hl _].
+    assert (0 < cs_get (fi_cs s) x); [|lia].
+    unfold keys in Hx. apply in_map_iff in Hx. destruct Hx as ([k v] & Ek & Hin). cbn [fst] in Ek. subst k.
+    rewrite (in_cs_get _ _ _ Hnd Hin). unfold allpos in Hpos. rewrite Forall_forall in Hpos. apply (Hpos _ Hin).
+  - lia.
+  - rewrite Ew. split; [|exact Hw].
+    assert (fi_offset s * 1 <= fi_offset s * hmin h) by (apply N.mul_le_mono_l; exact Hhm1). lia.
+Qed.
+
+(* A concrete sketch whose abstract view is well-formed and whose bookkeeping fields are consistent
+   is well-formed for the codec.  (That the crate's table keeps this bookkeeping and that its
+   abstract view is a reachable state is what the lock-step correspondence run checks at every
+   step, Corr/Freq.v [full_eq]; for tables built by deserialize it is proved: [roundtrip],
+   [deserialize_ok_wf].) *)
+Record fc_shape (H : Z -> N) (c : fc) : Prop := {
+  sh_cap : fc_cur_cap c = rp_thr (fc_map c) /\ rp_thr (fc_map c) = load_threshold (2 ^ rp_lg (fc_map c));
+  sh_ss : fc_sample_size c = N.min SAMPLE_SIZE (cap_of_lg (fc_lg_max c));
+  sh_len : rp_len (fc_map c) = 2 ^ rp_lg (fc_map c);
+  sh_active : rp_active (fc_map c) = N.of_nat (length (active_entries (fc_map c)));
+  sh_u32 : rp_active (fc_map c) < 2 ^ 32;
+  sh_hash : Forall (fun e => e_hash e = H (e_key e)) (active_entries (fc_map c))
+}.
+
+Theorem wf_of_abstract H c : fi_wf (fi_of_fc c) -> fc_shape H c -> fc_wf H c.
+Proof.
+  intros [[L1 [L2 L3]] Hnd Hpos Hkeys Hfit [Hs Hw]] [[C1 C2] Hss Hlen Hact Hu32 Hhash].
+  unfold fi_of_fc in *. cbn [fi_lg_cur fi_lg_max fi_cs fi_offset fi_weight] in *.
+  constructor; try assumption; try (split; assumption).
+  unfold fi_num_active, fi_cur_cap in Hfit. cbn [fi_cs fi_lg_cur] in Hfit. rewrite map_length in Hfit.
+  rewrite C1, C2, load_threshold_cap by (rewrite LG_MIN_val in L1; lia). rewrite Hact. exact Hfit.
+Qed.
+
+(* ---------- non-vacuity: a concrete purged sketch with a cluster that wraps around the table end ---------- *)
+Definition ex_hash (k : Z) : N := match k with 11%Z => 7 | 12%Z => 7 | 13%Z => 2 | _ => 0 end.
+Definition ex_tab : list (option entry) :=
+  [Some (mkEntry 12 7 4 2); None; Some (mkEntry 13 2 9 1); None; None; None; None; Some (mkEntry 11 7 5 1)].
+Definition ex_fc : fc := mkFc 4 6 3 40 12 (mkRp 3 6 ex_tab 3).
+
+Lemma ex_fc_wf : fc_wf ex_hash ex_fc.
+Proof.
+  constructor; cbn.
+  - lia.
+  - lia.
+  - split; [reflexivity|vm_compute; reflexivity].
+  - vm_compute. reflexivity.
+  - reflexivity.
+  - reflexivity.
+  - lia.
+  - vm_compute. reflexivity.
+  - repeat constructor; cbn; intuition congruence.
+  - repeat constructor; cbn; lia.
+  - repeat constructor; unfold i64_ok; lia.
+  - repeat constructor.
+  - unfold M64. lia.
+Qed.
